@@ -112,6 +112,11 @@ RdPrimary(ts, i, tbl) ==
                         THEN Ok(SCountIf(e.v), e.i + 1) ELSE Fail
                    ELSE Fail
               ELSE Ok(SCall(t.v, args.v), args.i + 1)
+    [] t.k = "kw" /\ t.v \notin {"NOT", "SELECT", "AS"} /\ IsOP(TokAt(ts, i + 1), "(") ->
+         \* a pass-through function whose name happens to be an SQL keyword (functions are
+         \* passed to the engine by name; whether the engine accepts the name is its business)
+         LET args == IF IsOP(TokAt(ts, i + 2), ")") THEN Ok(<<>>, i + 2) ELSE RdList(ts, i + 2, tbl, <<>>) IN
+         IF args.ok /\ IsOP(TokAt(ts, args.i), ")") THEN Ok(SCall("kw:" \o t.v, args.v), args.i + 1) ELSE Fail
     [] t.k = "id" -> Ok(SPh(t.v), i + 1)          \* a bare word (verbatim parameter text)
     [] OTHER -> Fail
 
